@@ -76,7 +76,8 @@ def standard_post(ctx, st, want_struct=True):
         # the arena grows only inside get_free_index with an empty free list (every slot in use), by the free list's capacity
         ok = ctx.allow_growth and v.n == ctx.view.n + (ctx.N - 1)
         post.append(('C11:growth-only-when-full-by-free-list-capacity', TRUE if ok else FALSE))
-    elif ctx.allow_growth:
+    elif ctx.allow_growth and ctx.kind != 'key':
+        # map / set: an insert into a full arena has to grow it (the key tree may free slots by lazy expiry first)
         post.append(('C11:growth-only-when-full-by-free-list-capacity', FALSE))
     G, it, extra = inv_closed(v)
     post.append(('C02:inv', conj(G, STRUCT)))
